@@ -8,7 +8,7 @@ import (
 
 // C04 (P2PKE swarm glue), relative to the Channel contract established by C02/C03/C05.
 
-// verif: replay=none stubs=channel sched=coop time=concrete cover=delivered,nothing bounds="p2pkeswarm.handleMessage: any inbound packet outcome of the channel (nothing / error / application bytes), whitelist (id&m)==v symbolic: a delivery carries Src.ID = fingerprint(channel.RemoteKey()), Src.Addr = transport source, Dst = local id; the inbound channel's AcceptKey is exactly the whitelist applied to fingerprint(key)@source"
+// verif: replay=none stubs=channel sched=coop time=concrete cover=delivered,nothing bounds="p2pkeswarm.handleMessage: any inbound packet outcome of the channel (nothing / error / application bytes), whitelist ((id ^ addr*0x55)&m)==v symbolic (depends on identity and transport address): a delivery carries Src.ID = fingerprint(channel.RemoteKey()), Src.Addr = transport source, Dst = local id; the inbound channel's AcceptKey is exactly the whitelist applied to fingerprint(key)@source"
 func VH_C04_p2pkeswarmInbound() bool {
 	told := 0
 	wlM, wlV := vByte(), vByte()
@@ -27,7 +27,9 @@ func VH_C04_p2pkeswarmInbound() bool {
 	vAssert(ok, "no-channel-for-source")
 	// the acceptance predicate configured for the inbound channel is the whitelist
 	k := vByte()
-	vAssert(vChanAccept(cs.Channel, k) == (k&wlM == wlV), "inbound-accept-predicate-is-not-the-whitelist")
+	var probe Addr[vAddr]
+	probe.ID[0], probe.ID[1], probe.Addr = k, 0x77, src
+	vAssert(vChanAccept(cs.Channel, k) == vWL(probe, wlM, wlV), "inbound-accept-predicate-is-not-the-whitelist")
 	if len(got) == 0 {
 		vCover("nothing")
 		return true
@@ -69,7 +71,7 @@ func VH_C04_p2pkeswarmOutbound() bool {
 	return true
 }
 
-// verif: replay=none stubs=channel sched=coop time=concrete unwind=8 cover=delivered-after-dial,delivered-inbound bounds="p2pkeswarm with whitelist (id&m)==v: optionally a Tell to an arbitrary identity at transport address 1 first (the swarm dials a channel), then a packet from transport address 1: whatever is delivered has a whitelisted source. Channel contract: a channel's remote key satisfies the AcceptKey it was created with"
+// verif: replay=none stubs=channel sched=coop time=concrete unwind=8 cover=delivered-after-dial,delivered-inbound bounds="p2pkeswarm with whitelist ((id ^ addr*0x55)&m)==v: optionally a Tell to an arbitrary identity at transport address 1 first (the swarm dials a channel), then a packet from transport address 1: whatever is delivered has a whitelisted source. Channel contract: a channel's remote key satisfies the AcceptKey it was created with"
 func VH_C04_p2pkeswarmWhitelistEveryPath() bool {
 	told := 0
 	wlM, wlV := vByte(), vByte()
@@ -95,7 +97,7 @@ func VH_C04_p2pkeswarmWhitelistEveryPath() bool {
 		} else {
 			vCover("delivered-inbound")
 		}
-		vAssert(g.src.ID[0]&wlM == wlV, "message-from-a-peer-the-whitelist-rejects-was-delivered")
+		vAssert(vWL(g.src, wlM, wlV), "message-from-a-peer-the-whitelist-rejects-was-delivered")
 	}
 	return true
 }
